@@ -106,3 +106,13 @@ Theorem C07_accept_required_kwonly : forall e a,
   exists m, In m e /\ pkind m = KO /\ pname m = pname q /\ pdefault m = false.
 Proof. exact accept_required_kwonly. Qed.
 Print Assumptions C07_accept_required_kwonly.
+
+(* required positional-only parameters: a required positional-only parameter of the accepted
+   callable at list index j faces a required positional-only parameter of the expected
+   signature at index j — every call the expected signature binds passes it positionally *)
+Theorem C07_accept_required_posonly : forall e a,
+  valid_sig a = true -> kinds_ok e a = true ->
+  forall j q, nth_error a j = Some q -> pkind q = PO -> pdefault q = false ->
+  exists m, nth_error e j = Some m /\ pkind m = PO /\ pdefault m = false.
+Proof. exact accept_required_posonly. Qed.
+Print Assumptions C07_accept_required_posonly.
